@@ -142,9 +142,14 @@ class Oracle:
         kind = info["kind"]
         li, bi = ad.indices(t)
         amt = info["amount"]
+        def debit(a):
+            # the wallet's rounding-dust rule: a payment within 0.001 % of the balance takes the whole balance (the wallet is swept), the position still moves by
+            # the stated amount
+            bal = md["wallet"][t]
+            md["wallet"][t] = Fraction(0) if bal != 0 and abs((bal - a) / bal) < Fraction(1, 10**5) else bal - a
         if kind == "supply":
             md["sup"][t] = md["sup"].get(t, Fraction(0)) + F(amt) / li
-            md["wallet"][t] -= F(amt)
+            debit(F(amt))
         elif kind == "withdraw":
             a = md["sup"][t] * li if amt in (None, "all") else F(amt)
             md["sup"][t] -= a / li
@@ -158,7 +163,7 @@ class Oracle:
             a = md["bor"][t] * bi if amt is None else F(amt)
             mode = info["extra"]
             if mode == "cash":
-                md["wallet"][t] -= a
+                debit(a)
             else:
                 cli, _ = ad.indices(mode)
                 need = a * F(row[t]) / F(row[mode])
@@ -321,7 +326,11 @@ class Oracle:
                     if abs(F(a[k]["base"]) - F(b[k]["base"])) > EPS:
                         return False
             for k in set(r1["wallet"]) | set(r2["wallet"]):
-                if abs(F(r1["wallet"].get(k, 0)) - F(r2["wallet"].get(k, 0))) > EPS:
+                # two ways of paying the same total may differ by the wallet's rounding dust (a payment within 0.001 % of the balance sweeps the wallet)
+                w1, w2 = F(r1["wallet"].get(k, 0)), F(r2["wallet"].get(k, 0))
+                swept = (w1 == 0) != (w2 == 0)  # only a wallet that one of the two ways has emptied is granted the dust
+                dust = Fraction(1, 10**5) * F(snap["assets"].get(next((tk for tk in snap["assets"] if tk.name == k), None), 0)) if swept else Fraction(0)
+                if abs(w1 - w2) > EPS + dust:
                     return False
             return True
 
